@@ -1,6 +1,7 @@
 """C08 -- PFB front end + cache.  Model rows (exact integers, vm_compute) -> numpy FFT -> must equal
 channelize() bit for bit, call by call, for any chunking, cache flag, interleaving of objects."""
 import json
+import math
 import os
 from harness import common as C
 
@@ -52,7 +53,7 @@ def model_exprs(c, part):
 def run(ctx):
     rng = ctx.rng
     quick = ctx.tier == "quick"
-    ctx.rule = ("random (taps, branches, integer window, integer stream) with 1-3 filterbank objects called in interleaved order, cache on/off "
+    ctx.rule = ("streams of more than 2^22 samples in one call vs two calls vs the definition (implementation only); random (taps, branches, integer window, integer stream) with 1-3 filterbank objects called in interleaved order, cache on/off "
                 "per call, real and complex input, chunks of 1..k windows; plus every composition of a stream of n windows into chunks "
                 "(n<=6 quick, n<=10 thorough) and scipy windows (hamming/hann/boxcar/blackman) checked chunked-vs-one-shot; "
                 "non-trivial = at least one call returned spectra; distinct = distinct case")
@@ -126,6 +127,19 @@ def run(ctx):
                 ctx.mismatch("pfb_frontend differs from the model rows", small)
     c0 = cases[len(corpus())]
     ctx.sample(dict(taps=c0["taps"], nb=c0["nb"], h=c0["h"][:8], calls=[dict(obj=cl["obj"], cache=cl["cache"], n=len(cl["x"])) for cl in c0["calls"]]))
+    # streams of several million samples in one call (implementation only: one call vs two calls vs the definition at a few spectra)
+    lcases = []
+    for _ in range(3 if quick else 12):
+        taps = rng.choice([3, 5, 6, 4]); nb = rng.choice([64, 32, 48])
+        lcases.append(dict(taps=taps, nb=nb, windows=(2 ** 22 + rng.randint(1, 2 ** 19)) // (taps * nb) + rng.randint(2, 9), seed=rng.randint(0, 10 ** 6), window_fn=rng.choice(["hamming", "hann"])))
+    lres = []
+    for part in C.run_impl_parallel("c08_impl", [dict(mode="long", cases=[c]) for c in lcases]):
+        lres.extend(part)
+    for c, r in zip(lcases, lres):
+        ctx.count(dict(k="long", c=c), nontrivial=True)
+        ctx.tally("long_stream_samples_log2", int(math.log2(c["windows"] * c["taps"] * c["nb"])))
+        for key, msg in r["fails"]:
+            ctx.impl_violation(key, msg, dict(k="long", **c))
 
 
 def corpus():
@@ -135,7 +149,7 @@ def corpus():
 
 def replay(ctx, payload):
     case = payload["case"]
-    r = C.run_impl("c08_impl", dict(cases=[case]))[0]
+    r = C.run_impl("c08_impl", dict(mode="long", cases=[case]))[0] if case.get("k") == "long" else C.run_impl("c08_impl", dict(cases=[case]))[0]
     for k, m in r["fails"]:
         print("FAILS: %s: %s" % (k, m))
     print("replay: %d property failure(s) on %s" % (len(r["fails"]), C.REPO))
